@@ -110,7 +110,9 @@ def bounded_contract(q, size_sets, note=""):
                 g = smt.expand_concrete(z3.simplify(ob.goal), cache, True, span)
                 sol.add(z3.Not(g))
                 r = sol.check()
-                if r == z3.sat:
+                if r == z3.sat and ob.kind == "model-limit":
+                    und.append(ob.name + " (limit of the array model: possibly negative index)")
+                elif r == z3.sat:
                     ob.verdict, ob.model = "refuted", smt.extract_model(sol.model(), rep.leaves)
                     bad.append(ob)
                 elif r != z3.unsat:
